@@ -1,6 +1,7 @@
 use super::{
     error::Error,
     find_crlf,
+    parse_unsigned,
     CRLF,
 };
 use rhymessage::MessageHeaders;
@@ -10,7 +11,7 @@ fn parse_chunk_size(chunk_size_line: &str) -> Result<usize, Error> {
         .find(|c| c == ';' || c == '\r')
         .unwrap_or_else(|| chunk_size_line.len());
     let chunk_size = &chunk_size_line[..delimiter];
-    usize::from_str_radix(chunk_size, 16).map_err(Error::InvalidChunkSize)
+    parse_unsigned(chunk_size, 16).map_err(Error::InvalidChunkSize)
 }
 
 #[derive(Debug, Eq, PartialEq)]
